@@ -204,6 +204,24 @@ def stdinOf : Event → Bytes
   | .user _ _ p => payloadStdin p
   | .query _ _ p => payloadStdin p
 
+/-! ### member addresses
+
+`member.Addr.String()` (`net.IP.String`) for the two forms modelled: a 4-byte address in dotted
+decimal and the nil address.  (The IPv6 text form is not modelled.) -/
+
+def digit (n : Nat) : UInt8 := UInt8.ofNat (48 + n % 10)
+
+/-- decimal rendering of one octet (0..255), no leading zeros -/
+def octet (n : Nat) : Bytes :=
+  if n < 10 then [digit n] else if n < 100 then [digit (n / 10), digit n] else [digit (n / 100), digit (n / 10), digit n]
+
+def DOT : UInt8 := 46
+
+def ipv4 (a b c d : Nat) : Bytes := octet a ++ DOT :: octet b ++ DOT :: octet c ++ DOT :: octet d
+
+/-- `"<nil>"` -/
+def nilAddr : Bytes := [60, 110, 105, 108, 62]
+
 /-! ### output -/
 
 def maxBufSize : Nat := 8192
